@@ -60,6 +60,52 @@ def eq_pos_len(e):
     return out
 
 
+
+def _expand_locals(f, e, depth=0):
+    """expression with single-definition locals replaced by their initialiser"""
+    x = strip(e)
+    if x is None or depth > 3:
+        return x
+    if x[0] == 'v' and x[2] == 'l':
+        ds = [d for d in f.events(('decl', 'st')) if (d['k'] == 'decl' and d['n'] == x[1] and d.get('e') is not None) or
+              (d['k'] == 'st' and d['e'][0] == 'a' and d['e'][1] == '=' and strip(d['e'][2]) == x)]
+        if len(ds) == 1:
+            return _expand_locals(f, ds[0]['e'] if ds[0]['k'] == 'decl' else ds[0]['e'][3], depth + 1)
+        return x
+    if x[0] == 'b':
+        return [x[0], x[1], _expand_locals(f, x[2], depth), _expand_locals(f, x[3], depth)] + list(x[4:])
+    if x[0] == 'q':
+        return [x[0], _expand_locals(f, x[1], depth), _expand_locals(f, x[2], depth), _expand_locals(f, x[3], depth)] + list(x[4:])
+    if x[0] == 'u':
+        return [x[0], x[1], _expand_locals(f, x[2], depth)] + list(x[3:])
+    if x[0] == 'k':
+        return _expand_locals(f, x[-1], depth)
+    return x
+
+
+def _extra_conjuncts(e):
+    """conjuncts standing next to a  position == X  comparison that are neither that comparison nor a test of the refresh type"""
+    out = []
+
+    def conj(c):
+        c = strip(c)
+        if c is not None and c[0] == 'b' and c[1] == '&&':
+            return conj(c[2]) + conj(c[3])
+        return [c]
+    for x in subexprs(e):
+        if x[0] == 'b' and x[1] == '&&':
+            cs = conj(x)
+            if any(eq_pos_len(c) for c in cs if c is not None):
+                for c in cs:
+                    if c is None or eq_pos_len(c):
+                        continue
+                    if any(y[0] == 'm' and y[1] == REFRESH for y in subexprs(c)):
+                        continue
+                    if c not in out:
+                        out.append(c)
+            break
+    return out
+
 def run(P, rep, tier):
     pd = P.fn('picture_decision_kernel')
     rps = P.fn('av1_generate_rps_info')
@@ -69,6 +115,7 @@ def run(P, rep, tier):
 
     # ---------------- COUNTER
     raises, resets = [], []
+    extra_of = {}
     for f in P.fns:
         if f.lib != 'Encoder' or f.nocfg:
             continue
@@ -78,9 +125,11 @@ def run(P, rep, tier):
                 continue
             lf = last_field(strip(e[2]))
             if lf in (IDR, CRA) and e[0] == 'a' and e[1] == '=':
-                cmp_ = eq_pos_len(e[3])
+                rhs_x = _expand_locals(f, e[3])
+                cmp_ = eq_pos_len(rhs_x)
                 if cmp_:
                     raises.append((f, ev, lf, cmp_))
+                    extra_of[id(ev)] = _extra_conjuncts(rhs_x)
             if lf == POS:
                 resets.append((f, ev))
     if len(raises) < 2 or len(resets) < 2:
@@ -92,6 +141,13 @@ def run(P, rep, tier):
         gated = any(kind in ('if',) and cond is not None and last_field(strip(strip(cond)[2])) == LEN and strip(cond)[0] == 'b' and strip(cond)[1] == '!=' and pstr(strip(strip(cond)[3])) in ('-1', '(-1)')
                     for kind, cond, line in f.ctl_chain(ev) if cond is not None and strip(cond) and strip(cond)[0] == 'b')
         ok = ok_len and reads_type and gated
+        # the period comparison may only be combined with tests of the refresh type: any other conjunct (per-picture state) withholds the
+        # refresh at a position the configuration promises
+        extra = extra_of.get(id(ev), [])
+        if ok and extra:
+            rep.ob('C19.COUNTER', 'raise:%s@%s' % (lf.split('.')[1], ev.get('l')), False, f.loc(ev),
+                   'the periodic raise of %s is additionally conditioned on %s: at a position k*(period+1) where that condition fails no intra refresh is coded' % (lf.split('.')[1], ' and '.join(pstr(x)[:60] for x in extra)))
+            continue
         rep.ob('C19.COUNTER', 'raise:%s@%s' % (lf.split('.')[1], ev.get('l')), ok, f.loc(ev),
                ('%s is raised when position == intra_period_length, selected by intra_refresh_type, only when the period is not -1' % lf.split('.')[1]) if ok else
                ('periodic raise of %s: %s' % (lf.split('.')[1], '; '.join(t for t, c in (('compares the position with %s, not with intra_period_length' % [pstr(x)[:40] for x in cmp_], not ok_len),
